@@ -39,13 +39,15 @@ THEOREMS = [P + n for n in (
     'centers_exact_mul', 'centers_ascending', 'centers_neighbors_consistent',
     'chunks_partition', 'floor_points_admissible', 'table_rows', 'rdm_per_center',
     'rdm_columns_order_irrelevant', 'rdm_euclid_of_searchlight',
+    'prefilter_leaves', 'radius_test_leaf', 'accept_leaf', 'chunk_limit_leaf', 'rdm_width_leaf',
+    'euclid_is_C01_spec',
     'parallel_order_independent_partial', 'parallel_perm_partial')]
 RULE = ('one PRNG; ops: neighbors (shape 1..5 per axis, centre inside or up to 2 outside, radius from '
         '{-1,0,.5,1,1.41,1.42,1.5,1.7,1.73,2,2.24,2.3,2.5,3}), volume (shape <= 4x4x3 quick / 5x5x4 '
         'thorough, random mask contents as bool/int/float/non-binary values, thresholds '
         '{0,1/3,1/2,2/3,7/10,1}), rdms (centres/neighbour lists built by an independent brute-force '
         'searchlight, optionally shuffled/subsampled, integer data, 2-4 conditions with arbitrary integer '
-        'labels, methods euclidean/mahalanobis/correlation/poisson; plus volumes with 1000, 1001 and >1001 '
+        'labels, methods euclidean/mahalanobis/correlation/poisson/crossnobis/poisson_cv (default folds; unbalanced, single-fold designs and an unknown method as rejections); plus volumes with 1000, 1001 and >1001 '
         'centres for the chunked branch), eval (token task through evaluate_models_searchlight with '
         'n_jobs 1-4, thread and process backends, scrambled completion order, and eval_fixed compared '
         'with the per-centre direct call). Non-trivial: a searchlight that is neither empty nor the whole '
@@ -55,6 +57,8 @@ BRANCHES = ['nb:clipped', 'nb:interior', 'nb:outside_center', 'nb:r_le_0', 'nb:b
             'vol:all', 'vol:some', 'vol:none', 'vol:thr_fraction', 'vol:nonbinary',
             'rdms:plain', 'rdms:chunked', 'rdms:n1000', 'rdms:n1001', 'rdms:shuffled',
             'rdms:euclidean', 'rdms:correlation', 'rdms:poisson', 'rdms:mahalanobis',
+            'rdms:crossnobis', 'rdms:poisson_cv', 'rdms:unbalanced_rejected', 'rdms:single_fold_rejected',
+            'rdms:unknown_method',
             'eval:jobs1', 'eval:threads', 'eval:processes']
 ASSUMPTIONS = [
     'float64 `sqrt(k) < r` agrees with the exact test `0 < r and k < r^2` for the generated radii '
@@ -73,6 +77,8 @@ TRUSTED_EXTRA = [
 RADII = [F(-1), F(0), F(1, 2), F(1), F(1.41), F(1.42), F(3, 2), F(1.7), F(1.73), F(2), F(2.24), F(2.3),
          F(5, 2), F(3)]
 RADII_POS = [r for r in RADII if r > 0]
+CV_METHODS = ('crossnobis', 'poisson_cv')
+METHODS = ['euclidean', 'correlation', 'poisson', 'mahalanobis', 'crossnobis', 'poisson_cv']
 THRESHOLDS = [F(0), F(1, 3), F(1, 2), F(2, 3), F(7, 10), F(1)]
 _OBSERVED_ORDER = {}
 
@@ -180,7 +186,7 @@ def _expand_rdms(case):
     if case.get('take') is not None:
         centers, nbs = centers[:case['take']], nbs[:case['take']]
     events = list(case['events'])
-    lo, hi = (0, 6) if case['method'] == 'poisson' else (-4, 4)
+    lo, hi = (0, 6) if case['method'] in ('poisson', 'poisson_cv') else (-4, 4)
     data = [[rr.randint(lo, hi) for _ in range(n)] for _ in events]
     return data, centers, nbs, events
 
@@ -234,6 +240,14 @@ def _gen_events(rng, method):
     labels = rng.sample(range(-3, 13), nc)
     if method == 'correlation':
         reps = [rng.choice([1, 2, 4]) for _ in labels]
+    elif method in CV_METHODS:
+        # no cv descriptor can be passed through the searchlight API: folds come from the default
+        # rule (k-th observation of a condition -> fold k), which needs a balanced design
+        u = rng.random()
+        k = 1 if u < 0.08 else rng.randint(2, 3)
+        reps = [k for _ in labels]
+        if 0.08 <= u < 0.2:
+            reps[rng.randrange(nc)] += 1          # unbalanced: rejected
     else:
         reps = [rng.randint(1, 3) for _ in labels]
     ev = [l for l, k in zip(labels, reps) for _ in range(k)]
@@ -242,7 +256,7 @@ def _gen_events(rng, method):
 
 
 def _gen_rdms(rng, method=None):
-    method = method or rng.choice(['euclidean', 'correlation', 'poisson', 'mahalanobis'])
+    method = method or (rng.choice(METHODS) if rng.random() > 0.04 else 'bogus')
     while True:
         shape = [rng.randint(2, 4), rng.randint(1, 4), rng.randint(1, 3)]
         n = shape[0] * shape[1] * shape[2]
@@ -322,8 +336,10 @@ def generate(rng, tier):
     yield _gen_big(rng, None, 'correlation')
     yield _gen_big(rng, rng.choice([None, 1002, 1100]), 'poisson')
     yield _gen_big(rng, rng.choice([None, 1001]), 'mahalanobis')
+    yield _gen_big(rng, rng.choice([None, 1001]), 'crossnobis')
+    yield _gen_big(rng, None, 'poisson_cv')
     if not quick:
-        for m in ('euclidean', 'correlation', 'poisson', 'mahalanobis'):
+        for m in METHODS:
             yield _gen_big(rng, rng.choice([None, 1001, 1002, 1100]), m)
             yield _gen_big(rng, None, m)
     yield _gen_eval(rng, 1, 'threading')
@@ -352,7 +368,8 @@ def search(rng, tier):
 
 def _exc(exc):
     name = type(exc).__name__
-    return {'exc': name if name in ('ValueError', 'TypeError', 'AssertionError', 'IndexError') else 'other'}
+    return {'exc': name if name in ('ValueError', 'TypeError', 'AssertionError', 'IndexError',
+                                    'NotImplementedError') else 'other'}
 
 
 def _run_eval(case):
@@ -441,7 +458,7 @@ def model_requests(case):
                  'radius': case['radius'], 'threshold': case['threshold']}]
     if op == 'rdms':
         data, centers, nbs, events = _expand_rdms(case)
-        exact = case['method'] in ('euclidean', 'mahalanobis')
+        exact = case['method'] in ('euclidean', 'mahalanobis', 'crossnobis')
         enc = (lambda v: v) if exact else fbits
         return [{'op': 'c19.rdms', 'method': case['method'],
                  'data': [[enc(v) for v in row] for row in data],
@@ -458,9 +475,17 @@ def model_requests(case):
 
 def model_result(case, answers):
     a = answers[0]
-    if isinstance(a, dict) and 'model_error' in a:
-        return a
     op = case['op']
+    if isinstance(a, dict) and 'model_error' in a:
+        # designs / methods the model rejects, with the exception class the library documents
+        err = str(a['model_error'])
+        if op == 'rdms' and err == 'unbalanced':
+            return {'exc': 'AssertionError'}
+        if op == 'rdms' and err == 'single fold':
+            return {'exc': 'ValueError'}
+        if op == 'rdms' and case['method'] == 'bogus' and 'not modelled' in err:
+            return {'exc': 'NotImplementedError'}
+        return a
     if op == 'neighbors':
         if sorted(map(tuple, a['algo'])) != sorted(map(tuple, a['spec'])):
             return {'model_error': 'neighborsAlgo and neighborsSpec differ as sets (contradicts prefilter_sound)'}
@@ -468,7 +493,7 @@ def model_result(case, answers):
     if op == 'volume':
         return {'centers': a['centers'], 'neighbors': a['neighbors']}
     if op == 'rdms':
-        if case['method'] in ('euclidean', 'mahalanobis'):
+        if case['method'] in ('euclidean', 'mahalanobis', 'crossnobis'):
             rows = [[float(unrat(v)) for v in row] for row in a['rdm']]
         else:
             rows = [[None if v is None else unfbits(v) for v in row] for row in a['rdm']]
@@ -508,8 +533,12 @@ def compare(case, impl, model):
 def _compare(case, impl, model):
     if isinstance(model, dict) and 'model_error' in model:
         return f'model error {model}'
-    if isinstance(impl, dict) and 'exc' in impl:
-        return f'impl raised {impl["exc"]}, model gives a result'
+    iexc = impl.get('exc') if isinstance(impl, dict) else None
+    mexc = model.get('exc') if isinstance(model, dict) else None
+    if iexc or mexc:
+        if iexc == mexc:
+            return None
+        return f'impl {"raised " + iexc if iexc else "gives a result"}, model {"rejects with " + mexc if mexc else "gives a result"}'
     op = case['op']
     if op == 'neighbors':
         # a searchlight is a *set* of voxels: compare sorted rows (a duplicate changes the length)
@@ -548,9 +577,55 @@ def _compare(case, impl, model):
 
 # ------------------------------------------------------------------ oracle (property on the real code)
 
+def _expected_rejection(events, method):
+    """exception class with which the direct computation itself rejects the design / method"""
+    if method == 'bogus':
+        return 'NotImplementedError'
+    if method in CV_METHODS:
+        counts = [events.count(c) for c in sorted(set(events))]
+        if len(set(counts)) != 1:
+            return 'AssertionError'      # default folds need a balanced design
+        if counts[0] < 2:
+            return 'ValueError'          # one fold: no training data
+    return None
+
+
+def _direct_rdm_cv(cols, events, method):
+    """plain-loop leave-one-fold-out RDM; fold of an observation = its occurrence number among
+    the observations of its condition; mean over folds of (train_i - train_j).(test_i - test_j)/n
+    (crossnobis, identity noise) or the Poisson analogue"""
+    conds = sorted(set(events))
+    seen, occ = {}, []
+    for e in events:
+        occ.append(seen.get(e, 0))
+        seen[e] = occ[-1] + 1
+    nfold = max(occ) + 1
+    nch = len(cols[0])
+    num = F if method == 'crossnobis' else float
+    out = [num(0)] * (len(conds) * (len(conds) - 1) // 2)
+    for f in range(nfold):
+        tr, te = [], []
+        for c in conds:
+            rtr = [r for r, e, o in zip(cols, events, occ) if e == c and o != f]
+            rte = [r for r, e, o in zip(cols, events, occ) if e == c and o == f]
+            tr.append([sum(num(r[j]) for r in rtr) / len(rtr) for j in range(nch)])
+            te.append([sum(num(r[j]) for r in rte) / len(rte) for j in range(nch)])
+        if method == 'poisson_cv':
+            tr = [[(x + 0.1) / 1.1 for x in m] for m in tr]
+            te = [[math.log((x + 0.1) / 1.1) for x in m] for m in te]
+        k = 0
+        for i in range(len(conds)):
+            for j in range(i + 1, len(conds)):
+                out[k] += sum((tr[i][q] - tr[j][q]) * (te[i][q] - te[j][q]) for q in range(nch)) / nch
+                k += 1
+    return [v / nfold for v in out]
+
+
 def _direct_rdm(cols, events, method):
     """plain-loop RDM of a data matrix (rows = observations) with conditions from `events`:
     condition means in ascending label order, all pairs i<j"""
+    if method in CV_METHODS:
+        return _direct_rdm_cv(cols, events, method)
     conds = sorted(set(events))
     exact = method in ('euclidean', 'mahalanobis')
     means = []
@@ -628,9 +703,17 @@ def oracle(case):
     if op == 'rdms':
         data, centers, nbs, events = _expand_rdms(case)
         feats = dict(base, n_centers=len(centers), method=case['method'])
+        rej = _expected_rejection(events, case['method'])
+        if rej:
+            if impl.get('exc') != rej:
+                return {'what': 'a design/method the direct computation rejects is not rejected alike',
+                        'observed': impl if 'exc' in impl else 'a result', 'expected': {'exc': rej},
+                        'features': feats}
+            return None
         if 'exc' in impl:
             return {'what': 'get_searchlight_RDMs raised', 'observed': impl, 'expected': 'RDMs',
-                    'features': feats}
+                    'features': dict(feats, failure='raises',
+                                     unequal_sizes=len({len(s) for s in nbs}) > 1)}
         if impl['voxel_index'] != centers:
             return {'what': 'voxel_index descriptor is not the list of centres', 'observed': impl['voxel_index'][:20],
                     'expected': centers[:20], 'features': feats}
@@ -704,6 +787,11 @@ def features(case, impl):
         if case.get('shuffle'):
             b.append('rdms:shuffled')
         b.append('rdms:' + case['method'])
+        rej = _expected_rejection(list(case['events']), case['method'])
+        f['rejected'] = rej
+        if rej:
+            b.append({'AssertionError': 'rdms:unbalanced_rejected', 'ValueError': 'rdms:single_fold_rejected',
+                      'NotImplementedError': 'rdms:unknown_method'}[rej])
     elif op == 'eval':
         f['n_jobs'] = case['n_jobs']
         f['backend'] = case['backend']
